@@ -293,7 +293,8 @@ def gen_l3_tasks(r, tier):
         d = L.gen_contract(r, 4 if tier == "quick" else 5, co)
         opts = (["--panic-error-codes", co] if co else [])
         opts += [[], ["--solver", "z3"], ["--storage-layout", "generic"], ["--solver", "z3", "--storage-layout", "generic"]][(i // 2) % 4]
-        tasks.append({"desc": d, "options": opts, "code_opt": co, "seed": r.getrandbits(32), "family": "grammar", "limit": 100 if tier == "quick" else 200})
+        opts += ["--solver-timeout-assertion", "15s"]   # a [TIMEOUT] verdict is not a PASS; keeps hard mul/div queries bounded
+        tasks.append({"desc": d, "options": opts, "code_opt": co, "seed": r.getrandbits(32), "family": "grammar", "limit": 100 if tier == "quick" else 200, "timeout": 200})
     for d, co, fam in special_contracts():
         for extra in ([], ["--solver", "z3"]) if tier != "quick" else ([],):
             tasks.append({"desc": d, "options": (["--panic-error-codes", co] if co else []) + extra, "code_opt": co, "seed": 1, "family": fam, "limit": 60})
@@ -359,6 +360,9 @@ def l3_tie(rep, m, tier, r):
             rep.count("l3_options", " ".join(task["options"]) or "(default)")
             for _, a in t["clauses"]:
                 rep.count("l3_action", a[0])
+            if status is None and "HARNESS-TIMEOUT" in val["err"]:
+                rep.count("l3_status", "no verdict within the harness timeout (solver still running)")
+                continue
             if status is None:
                 rep.fail("broken-tie", f"halmos printed no verdict for {sig} (options {task['options']}): {val['out'][-300:]} {val['err'][-300:]}", case=case)
                 continue
